@@ -1,5 +1,4 @@
-(* PV.C19.Refuted — counter-models: one per guard conjunct of strictness_eval_sound that exists because the
-   CODE fails (tools/run.py, is_strictness_fulfilled), plus the effect on the ranking table. *)
+(* PV.C19.Refuted — counter-models and regression examples. *)
 From Coq Require Import QArith ZArith List Bool PArith Arith Permutation.
 From PV Require Import C19.Model C19.Spec.
 Import ListNotations.
@@ -14,66 +13,59 @@ Definition res_ok (rse grad : option (list (id * option Q))) : resrec :=
 Definition cand_of (n : id) (ofv : Q) (r : resrec) : cand :=
   mkCand n (Some ofv) [pTH; pOM; pSI] 1 2 59%positive 155%positive r.
 
-(* 1. `rse` together with `rse_theta`: the local variable rse is re-bound to the pandas Series, the comparison
-   yields a Series and testing it raises ValueError — documented meaning: all RSEs below the limits -> True. *)
+(* No statement of C19 is refuted any more: the three strictness defects were repaired in /repo (fix commits
+   382c897, 6a7564c, 839c032).  The former witnesses are kept as regression examples of the repaired behaviour. *)
+
+(* 1. `rse` together with `rse_theta` (formerly ValueError: the local `rse` was re-bound to the pandas Series) *)
 Definition e_rebound : sexpr := SAnd (SCmp S_rse CLt (1 # 2)) (SCmp S_rse_theta CLt (1 # 2)).
 Definition c_rebound : cand :=
   cand_of 10%positive 1 (res_ok (Some [(1%positive, Some (1 # 10)); (2%positive, Some (1 # 5)); (3%positive, Some (3 # 10))]) None).
+Example rse_rebound_fixed : is_strictness_fulfilled (StExpr e_rebound) c_rebound = Ok true.
+Proof. vm_compute. reflexivity. Qed.
 
-Theorem strictness_rse_rebound_refuted :
-  exists e c, g_rse_not_rebound e = false /\ g_grad_nan_rows e c = true /\
-              g_near_round e c = true /\
-              is_strictness_fulfilled (StExpr e) c = Err EValue /\ spec_strictness (StExpr e) c = Ok true.
-Proof. exists e_rebound, c_rebound. repeat split; vm_compute; reflexivity. Qed.
-
-(* 2. final_zero_gradient_omega tests NaN on the THETA rows: a NaN omega gradient goes unnoticed ... *)
+(* 2. final_zero_gradient_omega with a NaN omega gradient (formerly False: NaN was tested on the theta rows) ... *)
 Definition e_fzg_omega : sexpr := SB S_fzg_omega.
 Definition c_omega_nan : cand :=
   cand_of 11%positive 1 (res_ok None (Some [(1%positive, Some 1%Q); (2%positive, None); (3%positive, Some 2%Q)])).
-Theorem strictness_grad_nan_refuted :
-  exists e c, g_grad_nan_rows e c = false /\ g_rse_not_rebound e = true /\ g_near_round e c = true /\
-              is_strictness_fulfilled (StExpr e) c = Ok false /\ spec_strictness (StExpr e) c = Ok true.
-Proof. exists e_fzg_omega, c_omega_nan. repeat split; vm_compute; reflexivity. Qed.
-
-(* ... and a NaN theta gradient is reported as a zero SIGMA gradient *)
+Example fzg_omega_nan_fixed : is_strictness_fulfilled (StExpr e_fzg_omega) c_omega_nan = Ok true.
+Proof. vm_compute. reflexivity. Qed.
+(* ... and final_zero_gradient_sigma with a NaN THETA gradient (formerly True) *)
 Definition c_theta_nan : cand :=
   cand_of 12%positive 1 (res_ok None (Some [(1%positive, None); (2%positive, Some 1%Q); (3%positive, Some 2%Q)])).
-Theorem strictness_grad_nan_sigma_refuted :
-  exists e c, g_grad_nan_rows e c = false /\
-              is_strictness_fulfilled (StExpr e) c = Ok true /\ spec_strictness (StExpr e) c = Ok false.
-Proof. exists (SB S_fzg_sigma), c_theta_nan. repeat split; vm_compute; reflexivity. Qed.
+Example fzg_sigma_theta_nan_fixed : is_strictness_fulfilled (StExpr (SB S_fzg_sigma)) c_theta_nan = Ok false.
+Proof. vm_compute. reflexivity. Qed.
 
-(* 3. an estimate exactly AT its non-zero bound is not "near" it: the estimate (numpy.float64 out of the pandas
-   Series) is rounded by numpy — rint(0.00125 * 1e4) / 1e4 = 0.0012 — and the bound (Python float) by Python's
-   correctly rounded round() — 0.0013 (the double 0.00125 lies above the decimal tie). *)
+(* 3. an estimate exactly at its bound 0.00125 (formerly not "near": the estimate was rounded by numpy,
+   rint(0.00125 * 1e4) / 1e4 = 0.0012 in double arithmetic, the bound by Python's round, 0.0013) *)
 Definition d_00125 : Q := (5764607523034235 # 4611686018427387904)%Q.      (* the double 0.00125 *)
 Definition pTHb : param := mkParam 1%positive KTheta false (Some d_00125) None.
 Definition c_at_bound : cand :=
   mkCand 13%positive (Some 1%Q) [pTHb; pOM; pSI] 1 2 59%positive 155%positive
          (mkRes true TNone (Some 3%Q) false false None None None
                 (Some [(1%positive, d_00125); (2%positive, (3 # 4)%Q); (3%positive, (3 # 4)%Q)])).
-Theorem strictness_near_bound_rounding_refuted :
-  exists e c, g_near_round e c = false /\ g_rse_not_rebound e = true /\ g_grad_nan_rows e c = true /\
-              is_strictness_fulfilled (StExpr e) c = Ok false /\ spec_strictness (StExpr e) c = Ok true.
-Proof. exists (SB S_enb_theta), c_at_bound. repeat split; vm_compute; reflexivity. Qed.
+Example near_bound_rounding_fixed : is_strictness_fulfilled (StExpr (SB S_enb_theta)) c_at_bound = Ok true.
+Proof. vm_compute. reflexivity. Qed.
+(* the old numpy rounding, kept to document what went wrong *)
+Definition np_round (x : Q) (d : Z) : Q :=
+  let f := Qpower 10 (Z.abs d) in
+  if (0 <=? d)%Z then round53 (inject_Z (round_half_even (round53 (x * f))) / f)
+  else round53 (inject_Z (round_half_even (round53 (x / f))) * f).
+Example numpy_rounding_differed :
+  Qeq_bool (np_round d_00125 4) (12 # 10000) = false /\ Qeq_bool (np_round d_00125 4) (round53 (12 # 10000)) = true /\
+  Qeq_bool (py_round_sig2 d_00125) (round53 (13 # 10000)) = true.
+Proof. repeat split; vm_compute; reflexivity. Qed.
 
-(* effect on the table: with strictness "not final_zero_gradient_omega" the candidate whose omega gradient is
-   NaN is ranked first by the code although the documented criterion excludes it *)
+(* table level: with strictness "not final_zero_gradient_omega" the candidate whose omega gradient is NaN is now
+   excluded, as documented (formerly ranked first) *)
 Definition cf_not_fzg : config := mkConfig RT_ofv CoNone None [] (StExpr (SNot (SB S_fzg_omega))).
 Definition base_ok : cand :=
   cand_of 20%positive 10 (res_ok None (Some [(1%positive, Some 1%Q); (2%positive, Some 1%Q); (3%positive, Some 2%Q)])).
 Definition logf0 (_ : positive) : Q := 0%Q.
 Definition isf0 (_ : Q) (_ : positive) : option Q := None.
 
-Theorem ranking_documented_strictness_refuted :
-  exists cf base models rows srows,
-    forallb (g_grad_nan_rows (SNot (SB S_fzg_omega))) (base :: models) = false /\
-    rank_models logf0 isf0 (is_strictness_fulfilled (cf_strict cf)) cf base models = Ok rows /\
-    spec_rows logf0 isf0 (spec_strictness (cf_strict cf)) cf base models = Ok srows /\
-    ~ Permutation rows srows.
-Proof.
-  exists cf_not_fzg, base_ok, [c_omega_nan].
-  eexists. eexists. split; [vm_compute; reflexivity|]. split; [vm_compute; reflexivity|].
-  split; [vm_compute; reflexivity|].
-  intro P. apply Permutation_length_2_inv in P. destruct P as [P|P]; discriminate P.
-Qed.
+Example ranking_nan_omega_gradient_fixed :
+  match rank_models logf0 isf0 (is_strictness_fulfilled (cf_strict cf_not_fzg)) cf_not_fzg base_ok [c_omega_nan] with
+  | Ok rows => map (fun r => (w_name r, w_rank r)) rows
+  | Err _ => []
+  end = [(20%positive, Some 1); (11%positive, None)].
+Proof. vm_compute. reflexivity. Qed.
